@@ -12,6 +12,7 @@ vars == <<cvars, corevars, tvars>>
 
 Line == Rec[l]
 IsBridge == host \in {"bridge_bin", "bridge_json"}
+IsTester == host = "tester"      \* AppTester: events come back to the test instead of being applied
 
 TInit == CInit /\ table = [progs |-> <<>>, follow |-> <<>>, legacy |-> FALSE]
          /\ l = 1 /\ ph = "act" /\ lk = 0 /\ host = ""
@@ -97,7 +98,7 @@ Silent == ph = "take" /\ CoreInternal /\ UNCHANGED tvars
 
 \* the next event the core applied, as the view shows it
 Apply ==
-  /\ ph = "take" /\ lk < Len(Line.log)
+  /\ ph = "take" /\ lk < Len(Line.log) /\ ~IsTester
   /\ \E i \in cmds[CORE].out :
        /\ i.kind = "ev" /\ LogEntry(i) = Line.log[lk + 1]
        /\ ApplyEvent(i)
@@ -125,10 +126,17 @@ Match ==
                      IN /\ Register(effs, idOf, store)
                         /\ IF store # StrictStore(effs) THEN TLCSet(2, TLCGet(2) + 1) ELSE TRUE
                 ELSE UNCHANGED registry
-          /\ CoreReturn
+          /\ IF IsTester
+             THEN LET evs == {i \in cmds[CORE].out : i.kind = "ev"} IN
+                  /\ Range([i \in DOMAIN Line.evs |-> Obs(Line.evs[i])]) = {Strip(i) : i \in evs}
+                  /\ Len(Line.evs) = Cardinality(evs)
+                  /\ OrderOK(Line.evs, evs)
+                  /\ TesterReturn
+             ELSE CoreReturn
      ELSE /\ Line.effs = <<>> /\ Line.log = <<>>
+          /\ IsTester => Line.evs = <<>>
           /\ UNCHANGED <<cvars, corevars>>
-  /\ Line.xt = ExecTasks
+  /\ ("xt" \in DOMAIN Line) => Line.xt = ExecTasks
   /\ ("ops" \in DOMAIN Line /\ phase = "run") => Line.ops <= OpsAlive + Cardinality(CoreEffects)
   /\ IF \E t \in Live(St) : FlatStuck(St, t) THEN TLCSet(4, TLCGet(4) + 1) ELSE TRUE
   /\ ("alive" \in DOMAIN Line) => Range(Line.alive) = ScriptTasksAlive
